@@ -21,8 +21,8 @@ RULE = (
     "'did not return' (counted, not judged); non-trivial = the operation returned and the input has >=2 plates or >=2 samples"
 )
 ASSUMPTIONS = ["per-plate hold-out count: ceil of the float product, of the exact rational product, and of the decimal reading of the fraction are all accepted"]
-REQUIRED = {"generator_returns": {"quick": 200, "thorough": 5000}, "smoother_returns": {"quick": 300, "thorough": 8000}, "holdout_returns": {"quick": 150, "thorough": 4000}, "input_unchanged_checks": {"quick": 700, "thorough": 17000}}
-N_OPS = {"quick": 1600, "thorough": 40000}
+REQUIRED = {"generator_returns": {"quick": 600, "thorough": 9000}, "smoother_returns": {"quick": 1000, "thorough": 15000}, "holdout_returns": {"quick": 500, "thorough": 7000}, "input_unchanged_checks": {"quick": 3500, "thorough": 50000}}
+N_OPS = {"quick": 4000, "thorough": 56000}
 
 
 def rows(s, plate=False, mask=False):
